@@ -90,7 +90,9 @@ FileInfo(f) ==
 RelChars(f, t) ==                                  \* f's path relative to t's directory, as characters
    LET skip == IF t.dir = <<>> THEN 0 ELSE Len(t.dirchars) + 1
    IN  SubSeq(f.pchars, skip + 1, Len(f.pchars))
-Above(f, t) == IsPrefixSeq(t.dir, f.path) /\ Len(t.dir) < Len(f.path)
+(* a REUSE.toml that the VCS ignores (or that lies in an ignored directory) is not part of the project *)
+TomlIgnored(t) == "ignored" \in DOMAIN t /\ t.ignored
+Above(f, t) == IsPrefixSeq(t.dir, f.path) /\ Len(t.dir) < Len(f.path) /\ ~TomlIgnored(t)
 
 TableMatches(tb, chars) == \E j \in 1..Len(tb.globs) : Matches(Narrow(tb.globs[j]), chars)
 LastMatch(t, f) ==                                 \* index of the last matching table, 0 if none
